@@ -18,6 +18,7 @@ def mk_seqparams(**kw):
         o = Obj(mod.SequenceParameters, 'self')
         o.fields['SeqObj'] = inner(it, case)
         return o
+    build.inv = 'seq_inv(self.SeqObj)'
     return build
 
 
